@@ -60,7 +60,7 @@ def sweeps(quick):
         for b in BB:
             for op in ('AND', 'OR', 'XOR'):
                 add(op + ' bytes', [PUSH(T.BYTES, b), PUSH(T.BYTES, a), I(op)])
-        for n in (0, 1, 7, 8, 9, 17):
+        for n in (0, 1, 7, 8, 9, 15, 16, 17, 23, 24, 25, 31, 32, 33, 40, 47, 48, 64, 255, 256, 257):
             add('LSL bytes', [PUSH(T.NAT, n), PUSH(T.BYTES, a), I('LSL')])
             add('LSR bytes', [PUSH(T.NAT, n), PUSH(T.BYTES, a), I('LSR')])
     # hashes
